@@ -26,6 +26,7 @@ type Options struct {
 	TxManager  bool `json:"tx_manager,omitempty"`
 	Manager    bool `json:"node_manager,omitempty"`    // register the node with a NodeManager
 	Preload    bool `json:"preload_headers,omitempty"` // the repository already holds blocks 1 and 2 (learned from another peer)
+	ReadChunk  int  `json:"read_chunk,omitempty"`      // > 0: the node's reads return at most this many bytes (the stream arrives in pieces)
 }
 
 // SpyHeaders wraps the real header repository and records the calls a peer can cause.
@@ -175,6 +176,7 @@ func StartShared(opt Options, with *Session) *Session { return start(opt, with) 
 func start(opt Options, with *Session) *Session {
 	s := &Session{Opt: opt, Ctx: logger.ContextWithNoLogger(context.Background()), Conn: NewConn(),
 		interrupt: make(chan interface{}), runDone: make(chan struct{}), nonce: 0x1000}
+	s.Conn.MaxRead = opt.ReadChunk
 	if with != nil {
 		s.Headers, s.Peers = with.Headers, with.Peers
 		s.shared = true
